@@ -141,13 +141,28 @@ def run_property(prop_id, tier, only=None, jobs=None):
     for n in names:
         s = subs[n]
         ns = s.shards_quick if tier == "quick" else s.shards_thorough
-        for sh in range(ns):
+        for sh in range(ns if tier != "fuzz" else 0):
             tasks.append((prop_id, n, tier, seed, sh, ns, known_sigs, None))
     jobs = jobs or int(os.environ.get("VERIF_JOBS", "16"))
     if jobs == 1 or len(tasks) == 1:
         results = [_task(t) for t in tasks]
     else:
-        results = _run_tasks(tasks, min(jobs, len(tasks)))
+        results = _run_tasks(tasks, min(jobs, len(tasks))) if tasks else []
+
+    # ---- coverage-guided stage (thorough tier; `./check <ID> fuzz` runs it alone) ------------------
+    fuzz_info = None
+    if tier in ("thorough", "fuzz") and os.environ.get("VERIF_FUZZ", "1") != "0":
+        from . import fuzzstage
+        if fuzzstage.available():
+            fr = fuzzstage.run(prop_id, subs, names, seed, known_sigs, jobs,
+                               int(os.environ.get("VERIF_FUZZ_EXECS", "3000")), int(os.environ.get("VERIF_FUZZ_SECONDS", "120")))
+            results += fr
+            fuzz_info = {"engine": "atheris (libFuzzer) -> Hypothesis fuzz_one_input -> the sub-check's strategy and oracle",
+                         "instrumented": "synapgrad (branch coverage feedback)",
+                         "per_subcheck": {r["sub"]: r["fuzz"] for r in fr},
+                         "evaluations": sum(r["fuzz"]["evaluations"] for r in fr)}
+        else:
+            fuzz_info = {"skipped": "atheris could not be installed from the offline wheelhouse"}
 
     # ---- regression corpus: every committed replay of this property must pass ------------------
     status = 0
@@ -264,6 +279,7 @@ def run_property(prop_id, tier, only=None, jobs=None):
             "known_findings": known_report,
             "regression_replays_checked": corpus_checked,
             "exhaustive_subspaces": sorted(set(all_exh)),
+            "coverage_guided_stage": fuzz_info,
             "subchecks": len(names), "tasks": len(tasks),
             "versions": _versions(),
         },
@@ -273,7 +289,7 @@ def run_property(prop_id, tier, only=None, jobs=None):
     }
     if all_exh:
         ev["coverage"]["exhaustive"] = False  # only the named sub-spaces are exhaustive
-    if only is None and not os.environ.get("VERIF_NO_EVIDENCE"):
+    if only is None and tier != "fuzz" and not os.environ.get("VERIF_NO_EVIDENCE"):
         os.makedirs(os.path.join(VERIF, "evidence"), exist_ok=True)
         with open(os.path.join(VERIF, "evidence", f"{prop_id}.json"), "w") as fh:
             json.dump(core.jsonable(ev), fh, indent=1, sort_keys=True)
@@ -297,7 +313,7 @@ def _versions():
 def main(argv=None):
     ap = argparse.ArgumentParser()
     ap.add_argument("prop", nargs="?")
-    ap.add_argument("tier", nargs="?", default="quick", choices=["quick", "thorough"])
+    ap.add_argument("tier", nargs="?", default="quick", choices=["quick", "thorough", "fuzz"])
     ap.add_argument("--replay")
     ap.add_argument("--only")
     ap.add_argument("--jobs", type=int)
